@@ -357,10 +357,9 @@ class IPVPNBase(Label):
         return not self.__eq__(other)
 
     def __hash__(self) -> int:
-        # _packed includes everything (labels + RD); use _has_addpath as discriminator
-        if self._has_addpath:
-            return hash(self._packed)
-        return hash(b'disabled' + self._packed)
+        # __eq__ compares index(), which leaves the label stack out: the hash has to be a
+        # function of the same bytes or two equal routes hash differently
+        return hash(self.index())
 
     def __copy__(self) -> Self:
         new = self.__class__.__new__(self.__class__)
@@ -425,14 +424,18 @@ class IPVPNBase(Label):
         elif self.path_info is PathInfo.DISABLED:
             addpath = b'disabled'
         else:
-            addpath = self.path_info.pack_path()
+            # tagged, so that the tags (b'disabled', b'no-pi', b'path' + 4 bytes) are a
+            # prefix-free code: a bare path-id could spell the start of a sentinel
+            addpath = b'path' + bytes(self.path_info.pack_path())
         # Index uses RD + prefix (without labels) for uniqueness
         rd_bits = RD_SIZE_BITS if self._has_rd else 0
         mask = bytes([rd_bits + self.cidr.mask])
         # Extract RD bytes from _packed
         label_end = self._label_end_offset
         rd_packed = self._packed[label_end : label_end + RD_SIZE] if self._has_rd else b''
-        return Family.index(self) + bytes(addpath) + mask + bytes(rd_packed) + self.cidr.pack_ip()
+        # the mask counts the RD bits but does not say whether an RD follows
+        rd_flag = b'\x01' if self._has_rd else b'\x00'
+        return Family.index(self) + bytes(addpath) + mask + rd_flag + bytes(rd_packed) + self.cidr.pack_ip()
 
     def prefix_index(self) -> bytes:
         rd_bits = RD_SIZE_BITS if self._has_rd else 0
